@@ -53,20 +53,44 @@ C10_TEXT = ('Theorem C10_limit_after_successful_writes: for every configuration 
             'admits the preallocation and every sequence of successful writes, accounted usage (parsing buffer + open-element stack) <= M and retained not-yet-emitted '
             'input <= M; one-step invariant C10_write_keeps_limit; the stack is charged before it grows. The failing call returns MemoryLimitExceeded in the model by construction. '
             'Partial: monotonicity in M and determinism are checked by the correspondence run / sweep oracle only. Known finding PreallocAboveLimit (witness lemma in props/C10.v).')
+TILING = ('Coq proof: tiling invariant sink = chunk[0..remaining_content_start) through lexer, tag scanner, bookmark hand-offs, dispatcher and stream '
+          '(proofs/Tiling.v, generic in the table) + side conditions decided by vm_compute on the regenerated table (proofs/TableFacts.v); extraction-based correspondence run')
 PROPS = {
+    'C01': dict(coq=['props/C01.vo'], families=[('l1', 1200, 30000), ('l2match', 600, 15000), ('grp-l1', 400, 8000)], projections=['out_bytes'], oracle=oracle_c01,
+        technique=TILING,
+        level_text='Theorem C01_pass_through: for EVERY observer transform controller (arbitrary capture-flag policy at every tag = every set of observing handlers and every '
+                   'lexer/scanner switching pattern), configuration (strict or not, any limits), byte string and split into writes: if all calls succeed, sink bytes = bytes written; '
+                   'C01_prefix_on_failure: a failing run (e.g. ParsingAmbiguity) has emitted a prefix. Table side conditions re-proved on the regenerated table every run. '
+                   'Partial: text is modelled with the identity codec (ASCII / valid UTF-8 fast path); the decode/encode normalisation clause and the other 35 encodings are only '
+                   'exercised on the implementation (non-ASCII cases are outside the model); rewrite_controller itself is tied to the theorem by the correspondence run (levels 1 and 2).',
+        level_note='Trusted: Coq kernel; translator; hand model of dispatcher/lexer/scanner/stream validated by the correspondence run (output bytes + results, L1 policy controller and real HtmlRewriter with observer handlers); extraction; harness.'),
+    'C11': dict(coq=['props/C11.vo'], families=[('l1fail', 800, 15000), ('l2fail', 800, 15000), ('mem', 600, 15000)], projections=['out_bytes', 'sink_protocol'], oracle=oracle_c11,
+        technique=TILING,
+        level_text='Theorem C11_bail_out_conserves_bytes: for every observer controller, configuration, chunking and failure point (any handler invocation, any limiter charge, arena append, '
+                   'first buffering of a tail): with the matching graceful flag the sink holds prefix ++ bail-out content ++ rest with prefix ++ rest = bytes received; without it a prefix and nothing flushed; '
+                   'C11_flags_are_independent. Partial: stated for the first failing write() (end() is covered by the correspondence run and oracle); handler-mutating configurations, '
+                   'bail-out handler ordering/once-only are checked by correspondence + oracle.',
+        level_note='Trusted as C01. Failure injection in the harness: k-th handler invocation fails / memory limit sweep; correspondence on output bytes and sink call sequence.'),
+    'C15': dict(coq=['props/C15.vo'], families=[('l1', 600, 20000), ('l2mixed', 600, 20000), ('l1fail', 300, 5000), ('mem', 300, 5000)], projections=['results'], oracle=oracle_c15, classify=classify_c15,
+        technique=TILING + '; harness built with debug assertions and overflow checks, every call under catch_unwind',
+        level_text='Theorem C15_no_offset_panic: in the model every slice of the chunk and the end-of-chunk cursor rewind is a checked operation; for every observer controller, input and chunking '
+                   'they never fail (the debug_assert! in Bytes::slice and the usize underflow in break_on_end_of_input are unreachable); C15_wrap32_in_range (i32 arithmetic of nth-child). '
+                   'Partial: termination/linear work is by fuel in the model (fuel exhaustion would show as a model panic in the correspondence run, never observed); code outside the model '
+                   '(cssparser, encoding_rs, Debug impls), stack exhaustion and allocation failure are not covered. Known finding PreallocAboveLimit.',
+        level_note='Trusted as C01; the correspondence run compares call results incl. panics caught by catch_unwind in a debug-assertion + overflow-check build.'),
     'C10': dict(coq=['props/C10.vo'], families=[('mem', 1500, 30000), ('l2fail', 600, 10000)], projections=['results', 'usage', 'out_bytes'], oracle=oracle_c10, classify=classify_c10,
         technique='Coq proof: success-path invariant theorem (OkPath) instantiated with the limiter invariant + arena lemmas; extraction-based correspondence incl. accounted usage (hook)',
         level_text=C10_TEXT,
         level_note='Trusted: Coq kernel, translator (LimitedVec constants), hand model of Arena/LimitedVec/SharedMemoryLimiter accounting (Vec::try_reserve_exact assumed exact), '
                    'size_of::<StackItem> measured through the limiter hook at run time and passed to the model; correspondence on results, usage after every write and output.'),
     #'C01': dict(coq=['props/C01.vo'], families=[('l1', 1500, 40000)], projections=['out_bytes'], oracle=oracle_c01),
-    'C12': dict(coq=['props/C12.vo'], families=[('l1', 1500, 40000), ('l1fail', 600, 10000)], projections=['sink_protocol'], oracle=oracle_c12,
+    'C12': dict(coq=['props/C12.vo'], families=[('l1', 800, 20000), ('l1fail', 500, 10000), ('l2fail', 500, 10000), ('l2edit', 500, 10000)], projections=['sink_protocol'], oracle=oracle_c12,
         technique='Coq proof: generic frame theorem over the executable model + invariant over call histories; extraction-based correspondence run',
         level_text='Theorems C12_sink_protocol / C12_finalizing_chunk_iff_successful_end / C12_error_poisons / C12_poisoned_is_inert hold for EVERY transform controller '
                    '(any handlers, failing anywhere), configuration, input and write*/end history of the model: set_encoding first, then only non-empty chunks, one zero-length '
                    'chunk as the very last call iff an end() succeeded, nothing after an error. The model (dispatcher, lexer, tag scanner, parser, stream, arena, guard) is executed '
                    'against the real TransformStream on generated histories incl. injected handler and memory failures; the sink call sequences must agree. Partial: the prefix '
-                   'clause (output before a failure is a prefix of the complete run) is checked by the correspondence run only; meta-charset set_encoding is not in the model yet.',
+                   'clause is proved for observer controllers (C12_prefix_before_failure) and checked by the correspondence run otherwise; meta-charset set_encoding is not in the model yet.',
         level_note='Trusted: Coq kernel, translator, the hand-written Gallina model (validated by the correspondence run on the sink-protocol projection), extraction (ExtrOcamlBasic), '
                    'the harness. The poisoning wrapper (guarded!) is replicated in the level-1 harness around TransformStream.'),
 }
